@@ -797,6 +797,39 @@ def before(a, b):
     return pos(a) < pos(b)
 
 
+ERR_ADAPTORS = {"map_err", "context", "with_context", "inspect_err"}
+
+
+def propagates(node, pm):
+    """the Result this call gives leaves the function on error: `call(..)?`, possibly through error-decorating adaptors
+    (`.map_err(..)?`, `.context(..)?`), or the call is the function's own result (tail expression / `return call(..)`)"""
+    cur = node
+    while id(cur) in pm:
+        par, key = pm[id(cur)]
+        if par["k"] == "MethodCall" and key == "recv" and par["method"] in ERR_ADAPTORS:
+            cur = par
+            continue
+        if par["k"] == "Try":
+            return True
+        if par["k"] == "Return":
+            return True
+        return False
+    return False
+
+
+def err_adaptors_above(node, pm):
+    """the error-decorating method calls between a call and its `?`"""
+    out, cur = [], node
+    while id(cur) in pm:
+        par, key = pm[id(cur)]
+        if par["k"] == "MethodCall" and key == "recv" and par["method"] in ERR_ADAPTORS:
+            out.append(par)
+            cur = par
+            continue
+        break
+    return out
+
+
 def preceding_guards(node, pm):
     """Early-exit guards that dominate `node` syntactically: for every enclosing block, each earlier
     sibling statement of the form `if C { ..diverges.. }` (no else) or `let P = E else { diverges }`.
